@@ -59,7 +59,8 @@ ImplLegacy(fs, sattr) ==
 ImplAsRef(fs, sattr) == DocAsRef(fs, sattr)       \* as/mod.rs follows the documented rule structurally
 
 \* the documented attribute styles: nothing (one field), exactly one positive mark and no ignore,
-\* or ignores on all fields but one and no positive mark
+\* ignores on all fields but one and no positive mark, or both at once with every field marked (the selected
+\* field carries `forward`/`#[attr]`, each other field an explicit ignore)
 Documented(fs, sattr) ==
     LET pos == {i \in 1..N(fs) : Positive(fs[i])}
         ign == {i \in 1..N(fs) : fs[i] = "ign"}
@@ -67,6 +68,7 @@ Documented(fs, sattr) ==
         /\ \/ (pos = {} /\ ign = {})
            \/ (pos # {} /\ ign = {})
            \/ (pos = {} /\ ign # {})
+           \/ (pos # {} /\ ign # {} /\ pos \cup ign = 1..N(fs))
 
 Which(fs, sattr) == Documented(fs, sattr) => ImplLegacy(fs, sattr) = DocLegacy(fs, sattr)
 =============================================================================
